@@ -145,7 +145,7 @@ def main(argv):
         use_model = fam.model and fst.get("_mdrv")
         if fam.model and not use_model:
             notes.append(f"model driver for configuration {fam.config} could not be built")
-        res = vlib.run_pairs(cdirs[fam.config], fq, fam.scripts, with_model=use_model)
+        res = vlib.run_pairs(cdirs[fam.config], fq, fam.scripts, with_model=use_model, heap_live_only=(fam.config != "internal"))
         nops = 0
         fstat = {"scripts": len(res), "ops": 0, "disagreements": 0, "crashes": 0, "monitor_hits": 0}
         for r in res:
